@@ -272,8 +272,10 @@ def shard_geo2(res, tier, idx, en_a, en_b, ra):
     env = ApiEnv()
     ia, ib = idx
     for rb in sizes_for(tier):
-        for rel, (ba, bb) in placements(ra, rb):
-            for (sda, sdb), (apa, apb) in itertools.product(sds, aps):
+        # the placement is the innermost dimension: consecutive layouts on this (reused) processor then differ in the base
+        # address registers only, with unchanged size / enable / subregion registers (a region that is moved, not resized)
+        for (sda, sdb), (apa, apb) in itertools.product(sds, aps):
+            for rel, (ba, bb) in placements(ra, rb):
                 regions = [pmsa.Region(ia, en_a, ra, ba, sda, apa), pmsa.Region(ib, en_b, rb, bb, sdb, apb)]
                 run_layout(res, env, regions, mbs, privs, writes, deltas, "geo2")
     res.sample({"part": "api geo2", "numbers": idx, "enables": (en_a, en_b), "A": RNAME[ra], "example": fmt_regions(regions)})
@@ -565,7 +567,7 @@ def classify(loc, prog, mode):
     return loc
 
 
-INSTR_MODES_Q = [USR, SVC, ABT]
+INSTR_MODES_Q = [USR, SVC, ABT, SYS]
 INSTR_MODES_T = [USR, FIQ, IRQ, SVC, MON, ABT, UND, SYS]
 
 
